@@ -47,7 +47,7 @@ fn format_field(name: &str, value: &str) -> String {
         | "Build-Depends-Arch"
         | "Build-Conflicts"
         | "Build-Conflicts-Indep"
-        | "Build-Conflics-Arch"
+        | "Build-Conflicts-Arch"
         | "Depends"
         | "Recommends"
         | "Suggests"
